@@ -58,6 +58,29 @@ func condA(A [][]SBig) float64 {
 
 var fitWorst = map[string]float64{}
 
+// results handed out earlier must stay what they were when later fits run (no recycled result storage)
+var fitKept []struct {
+	live, copy []float64
+	f          func(float64) float64
+	fAt, fVal  float64
+}
+
+func fitCheckKept(sum *Summary, c json.RawMessage) {
+	for _, k := range fitKept {
+		if !bitsEqual(k.live, k.copy) {
+			sum.viol("result-overwritten", c, "coefficients returned by an earlier fit changed from %v to %v after later fits", k.copy, k.live)
+		}
+		if k.f != nil {
+			if v := k.f(k.fAt); math.Float64bits(v) != math.Float64bits(k.fVal) {
+				sum.viol("result-overwritten", c, "F of an earlier PolynomialRegression now gives %v at %v, it gave %v", v, k.fAt, k.fVal)
+			}
+		}
+	}
+	if len(fitKept) > 8 {
+		fitKept = fitKept[len(fitKept)-8:]
+	}
+}
+
 func fitReplay(in io.Reader, raw bool, args []string) (*Summary, error) {
 	sum := &Summary{Rule: "one case per (abscissae, basis or LOESS degree/span/query, generating polynomial, perturbation, weight pattern) emitted by TLC with the exact normal equations and their exact solution; non-trivial = more data points than parameters and non-polynomial (perturbed) data; tolerances are max(1e-9, 16 eps cond(A)) relative to the solution's magnitude (LOESS: 1e-9 of the data magnitude)"}
 	rng := rand.New(rand.NewSource(baseSeed))
@@ -151,6 +174,12 @@ func fitReplay(in io.Reader, raw bool, args []string) (*Summary, error) {
 				sx, sy, sw := append([]float64{}, xs...), append([]float64{}, ys...), append([]float64{}, sw2...)
 				sum.Checks++
 				got := fit.LinearLeastSquares(xs, ys, sw2, terms...)
+				fitCheckKept(sum, c)
+				fitKept = append(fitKept, struct {
+					live, copy []float64
+					f          func(float64) float64
+					fAt, fVal  float64
+				}{got, append([]float64{}, got...), nil, 0, 0})
 				if len(got) != p {
 					sum.viol("LLS", c, "%d parameters, want %d", len(got), p)
 					return
@@ -187,6 +216,12 @@ func fitReplay(in io.Reader, raw bool, args []string) (*Summary, error) {
 			if strings.HasPrefix(fc.Basis, "poly") {
 				deg := p - 1
 				pr := fit.PolynomialRegression(xs, ys, w, deg)
+				fitCheckKept(sum, c)
+				fitKept = append(fitKept, struct {
+					live, copy []float64
+					f          func(float64) float64
+					fAt, fVal  float64
+				}{pr.Coefficients, append([]float64{}, pr.Coefficients...), pr.F, 0.75, pr.F(0.75)})
 				sum.Checks++
 				if len(pr.Coefficients) != p {
 					sum.viol("PolynomialRegression", c, "%d coefficients, want %d", len(pr.Coefficients), p)
@@ -241,6 +276,7 @@ func fitReplay(in io.Reader, raw bool, args []string) (*Summary, error) {
 			sum.Checks++
 			f := fit.LOESS(px, py, fc.Deg, span)
 			got := f(x0)
+			fitCheckKept(sum, c)
 			if r := math.Abs(got-rf(exact)) / tol; r > fitWorst["loess"] {
 				fitWorst["loess"] = r
 			}
